@@ -37,6 +37,7 @@ static Engine *engine_by_name(const std::string &n) {
 
 static std::string g_tmpdir = "/verif/build/tmp";
 static int g_cpu_budget = 30;
+static double g_shrink_seconds = 60;
 
 static Outcome parse_outcome_line(const std::string &line) {
   Outcome o; std::istringstream ls(line); std::string tok; ls >> tok; o.violation = (tok == "V");
@@ -136,6 +137,10 @@ struct Shrinker {
   }
   Plan run(Plan cur) {
     bool progress = true;
+    // a hang costs the whole CPU budget per candidate: while shrinking a hang, use a short leash (typical runs take < 0.2 s);
+    // the minimised plan is re-verified under the full budget afterwards
+    int saved_budget = g_cpu_budget; if (target.cls.find("cpu-loop") != std::string::npos) g_cpu_budget = std::min(g_cpu_budget, 4);
+    struct Restore { int &r; int v; ~Restore() { r = v; } } restore{g_cpu_budget, saved_budget};
     while (progress && execs < max_execs && now_s() < deadline) {
       progress = false;
       // ddmin-style removal over each droppable record type
@@ -192,8 +197,9 @@ static bool handle_violation(Engine *e, const std::string &engine, const Plan &p
   if (inproc && (inproc->cls != o1.cls || inproc->hash != o1.hash)) { printf("FLAKY seed=%llu first=%s/%016llx second=%s/%016llx\n", (unsigned long long)seed, inproc->cls.c_str(), (unsigned long long)inproc->hash, o1.cls.c_str(), (unsigned long long)o1.hash); fflush(stdout); return false; }
   Plan minp = plan;
   int execs = 0;
-  if (do_shrink) { Shrinker s{e, prop, o1}; s.deadline = now_s() + 90; minp = s.run(plan); execs = s.execs; }
+  if (do_shrink) { Shrinker s{e, prop, o1}; s.deadline = now_s() + g_shrink_seconds; minp = s.run(plan); execs = s.execs; }
   Outcome a = exec_isolated(e, minp, prop), b = exec_isolated(e, minp, prop);
+  if (do_shrink && (!same_class(a, o1) || !same_class(b, o1) || a.hash != b.hash)) { minp = plan; a = exec_isolated(e, minp, prop); b = exec_isolated(e, minp, prop); }   // fall back to the unshrunk plan
   if (!same_class(a, o1) || !same_class(b, o1) || a.hash != b.hash) { printf("FLAKY seed=%llu minimised replay unstable %s/%016llx vs %s/%016llx\n", (unsigned long long)seed, a.cls.c_str(), (unsigned long long)a.hash, b.cls.c_str(), (unsigned long long)b.hash); fflush(stdout); return false; }
   std::string path = write_replay(replaydir, engine, minp, a, seed);
   printf("VIOL prop=%s cls=%s replay=%s hash=%016llx seed=%llu recs_before=%zu recs_after=%zu shrink_execs=%d shrink_s=%.1f%s\n", a.prop.c_str(), a.cls.c_str(), path.c_str(), (unsigned long long)a.hash,
@@ -213,6 +219,7 @@ int main(int argc, char **argv) {
   __sanitizer_set_death_callback(death_cb);
   g_tmpdir = arg(argc, argv, "--tmpdir", "/verif/build/tmp");
   g_cpu_budget = atoi(arg(argc, argv, "--cpu-budget", "30").c_str());
+  g_shrink_seconds = atof(arg(argc, argv, "--shrink-seconds", "60").c_str());
 
   if (cmd == "replay") {
     if (argc < 3) return 2;
@@ -228,6 +235,7 @@ int main(int argc, char **argv) {
     return o.violation ? 1 : 0;
   }
 
+  if (cmd == "dump") { extern void vfsim_dump(const Plan &, const char *); if (argc < 4) return 2; vfsim_dump(Plan::parse(slurp(argv[2])), argv[3]); return 0; }
   std::string engine = arg(argc, argv, "--engine", "vfsim");
   GenCfg cfg; cfg.prop = arg(argc, argv, "--prop", "C07"); cfg.tier = arg(argc, argv, "--tier", "quick");
   cfg.master = strtoull(arg(argc, argv, "--seed", "1").c_str(), nullptr, 10);
